@@ -2,7 +2,7 @@
 EXTENDS Shapes, Json
 CONSTANTS Fam, EmitOn
 VARIABLES cs, done
-ParamListsQ == { <<>>, <<"u8">>, <<"str">>, <<"str", "u8">>, <<"str", "string", "ru8">>, <<"str", "vec", "u8">>, <<"string">>, <<"mu8">>, <<"gen">>, <<"u8", "str">>, <<"ru8", "string">>, <<"mu8", "u8">>, <<"u8", "mvec">>, <<"mlvec">>, <<"u8", "mlvec", "str">>,
+ParamListsQ == { <<>>, <<"u8">>, <<"str">>, <<"str", "u8">>, <<"str", "string", "ru8">>, <<"str", "vec", "u8">>, <<"tstr">>, <<"u8", "tstr", "mu8">>, <<"string">>, <<"mu8">>, <<"gen">>, <<"u8", "str">>, <<"ru8", "string">>, <<"mu8", "u8">>, <<"u8", "mvec">>, <<"mlvec">>, <<"u8", "mlvec", "str">>,
                  <<"slice", "vec">>, <<"u8", "string", "ru8">>, <<"str", "mu8", "u8">>, <<"optstr", "pair", "rru8">>, <<"gen", "u8", "str">>,
                  <<"u8", "string", "mu8", "str">>, <<"u8", "ru8", "str", "mvec", "u8">>, <<"vec", "u8", "slice", "string", "mu8">> }
 ParamListsT == ParamListsQ \cup { <<a, b>> : a \in ParamKinds \ {"gen", "into"}, b \in ParamKinds \ {"into"} }
